@@ -21,7 +21,7 @@ def _two_lines(h, mode="Q"):
     return A, ca, B, cb
 
 
-@proof("C14.lines-sound", "C14", funcs=LINES, props=["C14", "C13", "C01"])
+@proof("C14.lines-sound", "C14", funcs=LINES, props=["C14", "C13", "C01", "C05"])
 def _lines_sound(h):
     A, ca, B, cb = _two_lines(h)
     r = Intersection.lines(A, B)
@@ -39,7 +39,7 @@ def _lines_sound(h):
                                           zip(list(A.ctrlpoints) + list(B.ctrlpoints), ca + cb)]))
 
 
-@proof("C14.lines-complete", "C14", funcs=LINES, props=["C14", "C01"])
+@proof("C14.lines-complete", "C14", funcs=LINES, props=["C14", "C01", "C05"])
 def _lines_complete(h):
     A, ca, B, cb = _two_lines(h)
     u, v = h.real("u"), h.real("v")
